@@ -44,7 +44,7 @@ TReset == /\ IsEvent("Reset")
           /\ out' = NoOut /\ ov' = NoOv /\ UNCHANGED dev
 
 TRecv ==
-  /\ IsEvent("Recv") /\ ~Ev.kill /\ Ev.p \in Peers
+  /\ IsEvent("Recv") /\ ~Ev.kill /\ Ev.panic = "" /\ Ev.p \in Peers
   /\ LET p    == Ev.p
          ents == MergeInto(<<>>, Raw(Ev.es))
          after == {w[1] : w \in PerPeer(Ev.wl, p)}
